@@ -30,6 +30,13 @@ def SM(cfg, **kw):
     return dict(mode="mc", cfg=cfg, kind="counter", module="OrdaSync.tla", **kw)
 
 
+def BIG(n=1):
+    """I->S: one LONG sequential history (a client more than a thousand operations behind, more pending operations than one
+    buffer holds with a transaction across the boundary), recorded and validated by TLC against OrdaSyncTrace"""
+    return dict(mode="trace", cfg="sync_trace_big", module="OrdaSyncTrace.tla", tool="concdriver", kind="list", args=["-big", str(n), "-seed", "{seed}"],
+                why="a long recorded history is not one the protocol specification allows")
+
+
 def MU(tier):
     """several datatypes per client through the public API (Client.Sync over gRPC, one message with a pack per datatype)"""
     e = dict(mode="edge", cfg="multi_2x2_edge", kind="counter", n=2, tool="multireplay", dump_module="OrdaMultiDump.tla")
@@ -78,15 +85,15 @@ def jobs(prop, tier):
                     # elements at settled points depends on the clocks the clients carry through their entry
                     SE("sync_join_edge", 2, rate=0.08, kind="list"), SE("sync_sc_edge", 2, rate=0.03, kind="list"),
                     SE("sync_3_edge", 3, rate=0.003, kind="list"), SS("sync_sim", 3, 20, 60, kind="list")] + MU(tier)
-        return MU(tier) + [SM("sync_basic"), SM("sync_sc"), SM("sync_3"), SM("sync_big"), SM("sync_join"), SE("sync_basic_edge", 2), SE("sync_sc_edge", 2),
+        return MU(tier) + [BIG(2), SM("sync_basic"), SM("sync_sc"), SM("sync_3"), SM("sync_big"), SM("sync_join"), SE("sync_basic_edge", 2), SE("sync_sc_edge", 2),
                 SE("sync_3_edge", 3, rate=0.05), SS("sync_sim", 3, 600, 80),
                 SE("sync_join_edge", 2, kind="list"), SE("sync_sc_edge", 2, kind="list"), SE("sync_basic_edge", 2, kind="list"),
                 SE("sync_3_edge", 3, rate=0.05, kind="list"), SS("sync_sim", 3, 400, 80, kind="list")]
     if prop == "C06":
         if q:
             return [SE("sync_basic_edge", 2, rate=0.08), SE("sync_3_edge", 3, rate=0.004), SE("sync_faults_edge", 2, rate=0.004),
-                    SS("sync_sim", 3, 30, 60), SS("sync_faults_sim", 3, 30, 60)]
-        return [SM("sync_basic"), SM("sync_3"), SM("sync_faults"), SE("sync_basic_edge", 2), SE("sync_3_edge", 3, rate=0.05),
+                    SS("sync_sim", 3, 30, 60), SS("sync_faults_sim", 3, 30, 60), BIG(1)]
+        return [BIG(3), SM("sync_basic"), SM("sync_3"), SM("sync_faults"), SE("sync_basic_edge", 2), SE("sync_3_edge", 3, rate=0.05),
                 SE("sync_faults_edge", 2, rate=0.05), SS("sync_sim", 3, 500, 80), SS("sync_faults_sim", 3, 500, 80)]
     if prop == "C07":
         if q:
@@ -190,8 +197,8 @@ def jobs(prop, tier):
         if q:
             return [E("list_tx_edge", "list", 2, rate=0.3), E("list_txb_edge", "list", 2, rate=0.12), E("map_tx_edge", "map", 2, rate=0.3),
                     E("counter_tx_edge", "counter", 2, rate=0.3), S("list_tx_sim", "list", 3, 60, 40), S("map_tx_sim", "map", 3, 60, 40), S("counter_tx_sim", "counter", 3, 30, 40),
-                    E("doc_tx_edge", "doc", 2, rate=0.3), S("doc_tx_sim", "doc", 3, 40, 40)]
-        return [M("list_tx_mc", "list"), E("list_tx_edge", "list", 2), E("list_txb_edge", "list", 2), E("map_tx_edge", "map", 2),
+                    E("doc_tx_edge", "doc", 2, rate=0.3), S("doc_tx_sim", "doc", 3, 40, 40), BIG(1)]
+        return [BIG(2), M("list_tx_mc", "list"), E("list_tx_edge", "list", 2), E("list_txb_edge", "list", 2), E("map_tx_edge", "map", 2),
                 E("map_txb_edge", "map", 2), E("counter_tx_edge", "counter", 2), S("list_tx_sim", "list", 3, 500, 50),
                 S("map_tx_sim", "map", 3, 500, 50), S("counter_tx_sim", "counter", 3, 300, 50),
                 E("doc_tx_edge", "doc", 2), S("doc_tx_sim", "doc", 3, 500, 50)]
